@@ -51,6 +51,8 @@ VARIANTS = {
     "be":      ("gcc",   ["-O2", "-U__BYTE_ORDER__", "-D__BYTE_ORDER__=__ORDER_BIG_ENDIAN__"]),
     "asan":    ("clang", ["-O1", "-g", "-fsanitize=address,undefined", "-fno-sanitize-recover=undefined",
                           "-fno-omit-frame-pointer"]),
+    "ndebug":  ("gcc",   ["-O3", "-DNDEBUG"]),                    # a release configuration: assert() compiled out
+    "uchar":   ("gcc",   ["-O2", "-funsigned-char"]),            # ABIs whose plain char is unsigned (ARM, PowerPC, RISC-V, s390)
     "asanrec": ("clang", ["-O1", "-g", "-fsanitize=address", "-fsanitize-recover=address", "-fno-omit-frame-pointer"]),
     "ubsan":   ("clang", ["-O1", "-g", "-fsanitize=undefined,alignment", "-fsanitize-recover=all"]),
     "align":   ("clang", ["-O1", "-g", "-fsanitize=alignment", "-fsanitize-recover=alignment"]),
